@@ -1,8 +1,6 @@
-\* the faithful transcription of glom()'s except blocks against every law: InvClassKept is violated
-\* (the two recorded defects are visible at the level of the model)
+\* spec mutant: the mechanism variant "ctor_rerun" (see GlomErrors.tla) must violate a law
 CONSTANTS
-  Fix = FALSE
-  Mutant = "none"
+  Mutant = "ctor_rerun"
   MinDepth = 0
   MaxDepth = 1
   Rich = TRUE
